@@ -202,6 +202,39 @@ Qed.
 Lemma good_tail s r : good_path (s :: r) = true -> good_path r = true.
 Proof. simpl. intro H. apply andb_prop in H. tauto. Qed.
 
+Lemma d1_doc d : d1 (VDoc d) = true -> Forall (fun kv => d1 (snd kv) = true) d.
+Proof.
+  simpl. induction d as [|[k x] t IH]; intro H; constructor.
+  - apply andb_prop in H. tauto.
+  - apply IH. apply andb_prop in H. tauto.
+Qed.
+
+Lemma d3_doc d : d3 (VDoc d) = true -> Forall (fun kv => d3 (snd kv) = true) d.
+Proof.
+  simpl. induction d as [|[k x] t IH]; intro H; constructor.
+  - apply andb_prop in H. tauto.
+  - apply IH. apply andb_prop in H. tauto.
+Qed.
+
+Lemma d1_arr a : d1 (VArr a) = true ->
+  Forall (fun x => (forall l, x <> VArr l) /\ d1 x = true) a.
+Proof.
+  simpl. induction a as [|x t IH]; intro H; constructor.
+  - apply andb_prop in H. destruct H as [H _]. apply andb_prop in H. destruct H as [H1 H2].
+    split; [|exact H2]. intros l E. subst. discriminate.
+  - apply IH. apply andb_prop in H. tauto.
+Qed.
+
+Lemma d3_arr a : d3 (VArr a) = true ->
+  Forall (fun x => (forall e, x = VDoc e -> forallb (fun kv => negb (numeric_key (fst kv))) e = true)
+                   /\ d3 x = true) a.
+Proof.
+  simpl. induction a as [|x t IH]; intro H; constructor.
+  - apply andb_prop in H. destruct H as [H _]. apply andb_prop in H. destruct H as [H1 H2].
+    split; [|exact H2]. intros e E. subst. exact H1.
+  - apply IH. apply andb_prop in H. tauto.
+Qed.
+
 (* ---------------------------------------------------------------- *)
 (* Lemma A: a path that does not fan out reaches exactly one candidate, the
    same one for lungo and for the reference *)
@@ -259,39 +292,6 @@ Definition nm (x : value) : bool := negb (is_missing x).
 
 Definition leaves (val : value) (n : bool) : list value :=
   if n then match val with VArr l => l | _ => [] end else [val].
-
-Lemma d1_doc d : d1 (VDoc d) = true -> Forall (fun kv => d1 (snd kv) = true) d.
-Proof.
-  simpl. induction d as [|[k x] t IH]; intro H; constructor.
-  - apply andb_prop in H. tauto.
-  - apply IH. apply andb_prop in H. tauto.
-Qed.
-
-Lemma d3_doc d : d3 (VDoc d) = true -> Forall (fun kv => d3 (snd kv) = true) d.
-Proof.
-  simpl. induction d as [|[k x] t IH]; intro H; constructor.
-  - apply andb_prop in H. tauto.
-  - apply IH. apply andb_prop in H. tauto.
-Qed.
-
-Lemma d1_arr a : d1 (VArr a) = true ->
-  Forall (fun x => (forall l, x <> VArr l) /\ d1 x = true) a.
-Proof.
-  simpl. induction a as [|x t IH]; intro H; constructor.
-  - apply andb_prop in H. destruct H as [H _]. apply andb_prop in H. destruct H as [H1 H2].
-    split; [|exact H2]. intros l E. subst. discriminate.
-  - apply IH. apply andb_prop in H. tauto.
-Qed.
-
-Lemma d3_arr a : d3 (VArr a) = true ->
-  Forall (fun x => (forall e, x = VDoc e -> forallb (fun kv => negb (numeric_key (fst kv))) e = true)
-                   /\ d3 x = true) a.
-Proof.
-  simpl. induction a as [|x t IH]; intro H; constructor.
-  - apply andb_prop in H. destruct H as [H _]. apply andb_prop in H. destruct H as [H1 H2].
-    split; [|exact H2]. intros e E. subst. exact H1.
-  - apply IH. apply andb_prop in H. tauto.
-Qed.
 
 (* a document without the (numeric) key s contributes one Missing candidate *)
 Lemma rfind_absent e s r :
@@ -426,4 +426,30 @@ Proof.
       simpl app.
       destruct (Hcoll a IHv H1 H3) as [Fc Ec]. simpl fst. simpl snd. simpl leaves.
       split; [intros _; eexists; split; [reflexivity|exact Fc]|exact Ec].
+Qed.
+
+(* a non-collected result is a sub-value of the document (or Missing): D1 is inherited *)
+Lemma get_single_d1 : forall v p k x,
+  d1 v = true -> get v p true k = (x, false) -> d1 x = true.
+Proof.
+  induction v as [v IHv] using value_ind'. intros p k x H1 G.
+  destruct p as [|s r].
+  { rewrite get_nil in G. injection G as <-. exact H1. }
+  destruct v; try (rewrite get_scalar in G by discriminate; injection G as <-; reflexivity).
+  - rewrite get_doc in G. destruct (empty_path (s :: r)); [injection G as <-; reflexivity|].
+    apply d1_doc in H1. simpl in IHv.
+    induction d as [|[k0 y] t IHd]; [injection G as <-; reflexivity|].
+    simpl in G. inversion IHv as [|? ? Hy Ht]; subst. inversion H1 as [|? ? H1y H1t]; subst.
+    destruct (String.eqb k0 s).
+    + eapply Hy; eassumption.
+    + apply IHd; assumption.
+  - rewrite get_arr in G. destruct (empty_path (s :: r)); [injection G as <-; reflexivity|].
+    apply d1_arr in H1. simpl in IHv.
+    destruct (parse_index s) as [i|]; [|discriminate].
+    destruct (gnth a i r true k) as [res|] eqn:Gn; [|discriminate]. subst res.
+    revert i Gn. induction a as [|y t IHa]; intros i Gn; [discriminate|].
+    simpl in Gn. inversion IHv as [|? ? Hy Ht]; subst. inversion H1 as [|? ? [_ H1y] H1t]; subst.
+    destruct (i =? 0)%Z.
+    + injection Gn as Gn. eapply Hy; eassumption.
+    + eapply IHa; eassumption.
 Qed.
